@@ -3,7 +3,7 @@
 //!
 //! Points are known multiples `x·G1`, `y·G2` of the generators, so that the model can answer
 //! every request from discrete logarithms: `e(xG1, yG2) = gT^(xy)`.
-use ff::{Field, PrimeField};
+use ff::Field;
 use group::{prime::PrimeCurveAffine, Curve, Group};
 use midnight_curves::pairing::{Engine, MillerLoopResult, MultiMillerLoop, PairingCurveAffine};
 use mzkh::Ctx;
